@@ -1,4 +1,4 @@
-SPECIFICATION TSpec
+SPECIFICATION TSpecSecrets
 CONSTANTS
   ShareIds <- TEmpty
   UserIds <- TEmpty
